@@ -14,17 +14,19 @@ ValsT  == {<<120>>, <<121, 121>>, <<>>}
 NoBase == <<>>
 BaseA  == <<A>>
 BaseAB == <<A, B>>
+BaseE  == <<E>>
 Bound  == Count(st) <= MaxSlots
 ViewC  == <<tree, st>>
 (* path object: strings over {a, b, '.', '='} up to 4 characters *)
 Alpha == {97, 46, 61}
-StrsQ == UNION {[1..n -> Alpha] : n \in 0..4}
-StrsT == UNION {[1..n -> Alpha \cup {98}] : n \in 0..4}
+StrsQ == UNION {[1..n -> Alpha] : n \in 0..3}
+StrsT == UNION {[1..n -> Alpha] : n \in 0..4}
 SepsQ == {46}
 SepsT == {46, 61}
 AsgsQ == {0, 61}
 ElemsQ == {<<>>, <<97>>, <<98, 97>>}
 NoStrs == {}
-BoundP == Len(pel) <= 3 /\ Len(po.buf) <= 8
+BoundP  == Len(pel) <= 3 /\ Len(po.buf) <= 6
+BoundPT == Len(pel) <= 4 /\ Len(po.buf) <= 8
 ViewP  == <<pel, po>>
 =============================================================================
